@@ -88,7 +88,7 @@ func enumLiteral(base string, i int) string {
 	case "string":
 		return fmt.Sprintf("%q", []string{"active", "inactive", "pending", "x-y", "Z"}[i%5])
 	case "float64":
-		return []string{"0.5", "1.5", "2.25"}[i%3]
+		return []string{"0.5", "1.5", "2.25", "3.75", "10"}[i%5]
 	default:
 		return fmt.Sprint(i + 1)
 	}
@@ -113,7 +113,7 @@ func genTypes(t *rapid.T, p *Project, pf Profile) *typeCtx {
 		pkg := pickPkg()
 		base := rapid.SampledFrom(enumBases).Draw(t, "enumBase")
 		d := &TypeDecl{Name: fmt.Sprintf("%s%d", rapid.SampledFrom([]string{"Status", "Kind", "Level"}).Draw(t, "enumName"), i), Pkg: pkg, File: "enums.go", Kind: "enum", Base: base}
-		nv := rapid.IntRange(1, 3).Draw(t, "nConsts")
+		nv := rapid.IntRange(1, 5).Draw(t, "nConsts")
 		for v := 0; v < nv; v++ {
 			c := EnumConst{Name: fmt.Sprintf("%sV%d", d.Name, v), Value: enumLiteral(base, v)}
 			if rapid.IntRange(0, 4).Draw(t, "constElsewhere") == 0 {
